@@ -185,6 +185,7 @@ def check(ctx):
     n = ctx.n(2500, 40000)
     maxd = ctx.n(7, 11)
     cases, seen = [], set()
+    n_layout = [0]
     # corpus first: hand-picked edge cases
     corpus = [
         ("bin", "mod", ("lit", 7), ("un", "neg", ("lit", 2))),
@@ -249,6 +250,17 @@ def check(ctx):
                 a = real_answer(r)
                 if a != exp:
                     ctx.violation("arith:" + txt, txt, exp, a, how)
+            # the same expression laid out over several lines (a line break is whitespace): every binary operator starts a line
+            nl = mini
+            for o in ("+", "-", "*", "/", "%", "^"):
+                nl = nl.replace(" %s " % o, "\n%s " % o)
+            if nl != mini and n_layout[0] < ctx.n(400, 4000):
+                n_layout[0] += 1
+                for lay in (nl, nl.replace("\n", "\r\n"), nl.replace("\n", " \n\t")):
+                    a = real_answer(real.value(lay))
+                    if a != exp:
+                        ctx.violation("arith-layout:" + lay, lay, exp, a, "execute(%r)" % lay)
+                        break
         elif want[0] == "divzero":
             for txt, r in ((full, r_full), (mini, r_min)):
                 # "reported as an error and never produces a value": which diagnosed error is not the property's business
